@@ -385,6 +385,8 @@ where
 {
     #[cfg_attr(feature = "tracing", fastrace::trace(name = "foyer::memory::raw::inner::clear"))]
     fn clear(&self) {
+        #[cfg(feature = "verif")]
+        crate::verif::sched_point("clear:lock");
         let mut garbages = vec![];
 
         self.shards
@@ -480,6 +482,8 @@ where
 
     #[cfg_attr(feature = "tracing", fastrace::trace(name = "foyer::memory::raw::resize"))]
     pub fn resize(&self, capacity: usize) -> Result<()> {
+        #[cfg(feature = "verif")]
+        crate::verif::sched_point("resize:start");
         let shards = self.inner.shards.len();
         assert!(shards > 0, "shards must be greater than zero.");
 
@@ -591,10 +595,14 @@ where
         let mut garbages = vec![];
         let mut taken = None;
 
+        #[cfg(feature = "verif")]
+        crate::verif::sched_point("insert:lock");
         self.inner.shards[self.shard(record.hash())]
             .write()
             .with(|mut shard| shard.emplace(record.clone(), &mut garbages, &mut taken));
 
+        #[cfg(feature = "verif")]
+        crate::verif::sched_point("insert:unlocked");
         // Notify waiters out of the lock critical section.
         for notifier in taken.into_iter().flat_map(|taken| taken.notifiers) {
             let _ = notifier.send(Ok(Some(RawCacheEntry {
@@ -631,6 +639,8 @@ where
     pub fn evict_all(&self) {
         let mut garbages = vec![];
         for shard in self.inner.shards.iter() {
+            #[cfg(feature = "verif")]
+            crate::verif::sched_point("evict_all:lock");
             shard.write().evict(0, &mut garbages);
         }
 
@@ -680,6 +690,8 @@ where
     {
         let hash = self.inner.hash_builder.hash_one(key);
 
+        #[cfg(feature = "verif")]
+        crate::verif::sched_point("remove:lock");
         self.inner.shards[self.shard(hash)]
             .write()
             .with(|mut shard| {
@@ -705,6 +717,8 @@ where
     {
         let hash = self.inner.hash_builder.hash_one(key);
 
+        #[cfg(feature = "verif")]
+        crate::verif::sched_point("get:lock");
         let record = match E::acquire() {
             Op::Noop => self.inner.shards[self.shard(hash)].read().get_noop(hash, key),
             Op::Immutable(_) => self.inner.shards[self.shard(hash)]
@@ -730,6 +744,8 @@ where
     {
         let hash = self.inner.hash_builder.hash_one(key);
 
+        #[cfg(feature = "verif")]
+        crate::verif::sched_point("contains:lock");
         self.inner.shards[self.shard(hash)]
             .read()
             .with(|shard| shard.indexer.get(hash, key).is_some())
@@ -839,6 +855,8 @@ where
         let shard = &self.inner.shards[hash as usize % self.inner.shards.len()];
 
         if self.record.dec_refs(1) == 0 {
+            #[cfg(feature = "verif")]
+            crate::verif::sched_point("drop:last-ref");
             if self.record.properties().phantom().unwrap_or_default() {
                 if let Some(listener) = self.inner.event_listener.as_ref() {
                     listener.on_leave(Event::Evict, self.record.key(), self.record.value());
@@ -1043,6 +1061,8 @@ where
             })
         };
 
+        #[cfg(feature = "verif")]
+        crate::verif::sched_point("fetch:lock");
         match E::acquire() {
             Op::Noop => self.inner.shards[self.shard(hash)]
                 .read()
